@@ -508,6 +508,7 @@ type Lemma struct {
 }
 
 type ChanInv struct {
+	OnlyProps []string // chaninv[Cxx] ...: the send obligations belong to these properties only
 	Key   string // pkgpath.Type.Field or element type key
 	Var   string
 	Text  string
@@ -897,7 +898,7 @@ func parseSpecFile(path, text, pkg string, trusted bool) (*SpecFile, error) {
 			if pkg != "" && !strings.Contains(key, "/") && strings.Count(key, ".") <= 1 {
 				key = pkg + "." + key
 			}
-			sf.ChanInvs = append(sf.ChanInvs, &ChanInv{Key: key, Var: strings.TrimSpace(rest[i+1 : j]), Text: body, Expr: e, Props: append(append([]string(nil), fileProps...), cprops...), Pkg: pkg})
+			sf.ChanInvs = append(sf.ChanInvs, &ChanInv{Key: key, Var: strings.TrimSpace(rest[i+1 : j]), Text: body, Expr: e, Props: append(append([]string(nil), fileProps...), cprops...), Pkg: pkg, OnlyProps: cprops})
 		default:
 			return nil, fmt.Errorf("%s: unknown keyword %q", loc, kw)
 		}
